@@ -16,7 +16,7 @@ RULE = ("case = one program (every device statement / convertible function / pro
         "emitted RUN sites are checked against the PARAM/TYPE lines parsed from the current ecb.b09; plus the library's own "
         "RUN sites; distinct = distinct (callee, argument class list); non-trivial = at least one RUN site was checked")
 ASSUMPTIONS = ["argument classes are coarse (string / numeric / record type), as the property states; INTEGER vs REAL is not compared",
-               "gfx2, gfx, syscall, inkey are OS-9 system modules without a declared interface"]
+               "gfx2, gfx, syscall are OS-9 system modules without a declared interface; inkey takes (char$) or (path, char$)"]
 REQUIRED_COUNTERS = ["run_sites_checked"]
 
 
@@ -29,6 +29,16 @@ def check_sites(proc, lib, where):
     n = 0
     for name, args, idx in inf.runs:
         low = name.lower()
+        if low == "inkey":
+            # OS-9 system module with a documented interface: RUN inkey(char$) or RUN inkey(path, char$)
+            n += 1
+            cls = [static.expr_class(a, decl, inf.types) for a in args]
+            seen.add("inkey(%s)" % ",".join(c if isinstance(c, str) else "rec" for c in cls))
+            if len(args) not in (1, 2):
+                viols.append(("C14/arity/inkey/%d-for-1-or-2" % len(args), {"where": where, "call": name, "line": proc.body[idx].line}))
+            elif cls[-1] not in ("string", "unknown") or args[-1][0] != "ref" or (len(args) == 2 and cls[0] == "string"):
+                viols.append(("C14/class/inkey/%s" % ",".join(map(str, cls)), {"where": where, "call": name, "line": proc.body[idx].line}))
+            continue
         if low in static.SYSTEM_MODULES:
             continue
         n += 1
